@@ -33,6 +33,8 @@ SM1 == GateAt("S", K0)
 CNOTm == GateAt("CNOT", K0)
 A2 == MMul(MKron(TM1, HM1), MMul(CNOTm, MKron(SM1, GateAt("RX", <<1, 0, 0>>))))          \* no qubit-permutation symmetry
 A3 == LET a2 == TLCEval(A2) IN MMul(Lift(a2, <<0, 2>>, 3), MMul(Lift(MMul(TM1, HM1), <<1>>, 3), Lift(CNOTm, <<2, 1>>, 3)))
+\* a four-qubit gate without any qubit-permutation symmetry (a controlled-controlled-CNOT is symmetric in its three controls)
+A4 == LET a2 == TLCEval(A2) a3 == TLCEval(A3) IN MMul(Lift(a3, <<0, 3, 1>>, 4), Lift(a2, <<2, 0>>, 4))
 Entry(name, k, ar, kind, nc) == [name |-> name, k |-> k, ar |-> ar, kind |-> kind, nc |-> nc]
 Gate == <<
   Entry("H", K0, 1, "builtin", 0), Entry("T", K0, 1, "builtin", 0), Entry("RX", <<1, 0, 0>>, 1, "builtin", 0), Entry("SX", K0, 1, "builtin", 0),
@@ -42,11 +44,12 @@ Gate == <<
   Entry("U3", <<1, 1, 2>>, 1, "builtin", 0), Entry("Y", K0, 1, "builtin", 0), Entry("RZ", <<3, 0, 0>>, 1, "builtin", 0), Entry("GPi2", <<1, 0, 0>>, 1, "builtin", 0),
   Entry("SWAP", K0, 2, "builtin", 0), Entry("CZ", K0, 2, "builtin", 0), Entry("XY", <<1, 0, 0>>, 2, "builtin", 0), Entry("MS", <<1, 2, 0>>, 2, "builtin", 0),
   Entry("S", K0, 2, "ctrl", 1), Entry("CPHASE", <<1, 0, 0>>, 2, "builtin", 0),
-  Entry("T", K0, 2, "ctrl", 1), Entry("Y", K0, 3, "ctrl", 2) >>      \* wrapped gates that differ ONLY in the wrapped gate (same wrapper, arity, parameters)
+  Entry("T", K0, 2, "ctrl", 1), Entry("Y", K0, 3, "ctrl", 2),
+  Entry("A4", K0, 4, "custom", 0) >>      \* wrapped gates that differ ONLY in the wrapped gate (same wrapper, arity, parameters)
 GMCompute(g) == LET e == Gate[g] IN
   CASE e.kind = "builtin" -> GateAt(e.name, e.k)
     [] e.kind = "ctrl" -> LET b == GateAt(e.name, e.k) IN MBlockId(Len(b) * (2^e.nc - 1), b)
-    [] e.kind = "custom" -> IF e.name = "A2" THEN A2 ELSE A3
+    [] e.kind = "custom" -> IF e.name = "A2" THEN A2 ELSE IF e.name = "A3" THEN A3 ELSE A4
 GMTab == TLCEval([g \in 1..Len(Gate) |-> GMCompute(g)])
 GM(g) == gm[g]
 AlphabetQuick == {1, 2, 3, 5, 6, 8, 9, 10, 20, 22, 23}
